@@ -288,6 +288,8 @@ def gen_physics(rnd, **p):
     dt_init = rnd.choice(p.get("dt_choices", [1e-4, 1e-3, 0.01, 0.01, 0.05, 0.2]))
     lo, hi = p.get("steps", (3, 30))
     steps = rnd.randint(lo, hi)
+    if screening:
+        steps = min(steps, 6)  # screening costs 10..1000 kernel evaluations per step
     solve_time = r3(dt_init * steps * rnd.choice([1.0, 0.97, 1.0]))
     therm = p["therm"] if "therm" in p else (rnd.random() < 0.2)
     opts = base_options(
